@@ -27,6 +27,9 @@ IdField == Field("Auto", D1("primary_key", TRUE))
 Model(name, fields, ut, idx) == [table |-> "t_" \o name, fields |-> fields,
                                  ut |-> ut, uta |-> TRUE, idx |-> idx, cons |-> <<>>]
 Idx(name, fields) == [name |-> name, fields |-> fields]
+(* Meta.constraints (see Optimizer.tla): a check on g, a unique over (f, g) *)
+CkG  == [kind |-> "check", fields |-> <<>>, name |-> "ck_g", cond |-> "g"]
+UqFG == [kind |-> "unique", fields |-> <<"f", "g">>, name |-> "uq_fg", cond |-> None]
 
 Start(id) ==
   CASE id = 1 ->
@@ -37,6 +40,11 @@ Start(id) ==
          B |-> Model("B", [id |-> IdField,
                            f |-> FKField("A", EmptyDict),
                            g |-> Field("Int", EmptyDict)], <<>>, <<>>)]
+    [] id = 4 ->          \* Meta.constraints
+        [A |-> [Model("A", [id |-> IdField,
+                            f |-> Field("Char", D1("max_length", 10)),
+                            g |-> Field("Int", EmptyDict)], <<>>, <<>>)
+                  EXCEPT !.cons = <<CkG, UqFG>>]]
     [] id = 3 ->          \* several unique_together entries, NOT in sorted order, over fields
                           \* that are never edited next to fields that are
         [A |-> Model("A", [id |-> IdField,
@@ -69,6 +77,7 @@ EditDeleteField(m, f) ==
     /\ m \in DOMAIN new /\ f \in DOMAIN new[m].fields /\ f # "id"
     /\ (\A i \in 1..Len(new[m].ut) : ~InSeq(f, new[m].ut[i]))
     /\ (\A i \in 1..Len(new[m].idx) : ~InSeq(f, new[m].idx[i].fields))
+    /\ (\A i \in 1..Len(new[m].cons) : ~InSeq(f, new[m].cons[i].fields) /\ new[m].cons[i].cond # f)
     /\ Step([new EXCEPT ![m].fields = Drop(@, f)])
 EditRetype(m, f) ==
     /\ m \in DOMAIN new /\ f \in DOMAIN new[m].fields /\ f # "id"
@@ -103,6 +112,13 @@ EditIndexes(m) ==
           v # new[m].idx
           /\ (\A i \in 1..Len(v) : SeqSet(v[i].fields) \subseteq DOMAIN new[m].fields)
           /\ Step([new EXCEPT ![m].idx = v])
+EditConstraints(m) ==
+    /\ m \in DOMAIN new
+    /\ \E v \in { <<>>, <<CkG>>, <<UqFG>>, <<CkG, UqFG>>, <<UqFG, CkG>> } :
+          v # new[m].cons
+          /\ (\A i \in 1..Len(v) : /\ SeqSet(v[i].fields) \subseteq DOMAIN new[m].fields
+                                     /\ (v[i].cond # None => v[i].cond \in DOMAIN new[m].fields))
+          /\ Step([new EXCEPT ![m].cons = v])
 EditDeleteModel(m) ==
     /\ m \in DOMAIN new /\ Cardinality(DOMAIN new) > 1
     /\ (\A x \in DOMAIN new \ {m} : \A f \in DOMAIN new[x].fields : new[x].fields[f].rel # m)
@@ -114,7 +130,7 @@ EditRetarget(m, f) ==
 
 Next == /\ edits < MaxEdits
         /\ \E m \in ModelNames :
-              \/ EditUniqueTogether(m) \/ EditIndexes(m) \/ EditDeleteModel(m)
+              \/ EditUniqueTogether(m) \/ EditIndexes(m) \/ EditConstraints(m) \/ EditDeleteModel(m)
               \/ \E f \in FieldNames :
                     \/ EditAddField(m, f) \/ EditDeleteField(m, f) \/ EditRetype(m, f)
                     \/ EditAttr(m, f) \/ EditMaxLength(m, f) \/ EditExplicitDefault(m, f)
@@ -133,6 +149,7 @@ FieldDiff(n, o) ==
 MetaChanged(n, o) ==
     (IF UTChanged(o, n) THEN {"unique_together"} ELSE {})
     \cup (IF n.idx # o.idx THEN {"indexes"} ELSE {})
+    \cup (IF n.cons # o.cons THEN {"constraints"} ELSE {})
 
 RECURSIVE SetToSeq(_)
 SetToSeq(S) == IF S = {} THEN <<>> ELSE LET x == CHOOSE y \in S : TRUE IN <<x>> \o SetToSeq(S \ {x})
@@ -170,6 +187,9 @@ ModelHint(mn, n, o) ==
        \o [i \in 1..Cardinality(removed) |->
              [Blank EXCEPT !.k = "Del", !.m = mn, !.f = SetToSeq(removed)[i]]]
        \o [i \in 1..Cardinality(changed) |-> chgM(SetToSeq(changed)[i])]
+       \o (IF "constraints" \in mc
+           THEN <<[Blank EXCEPT !.k = "Meta", !.m = mn, !.prop = "constraints", !.ival = n.cons]>>
+           ELSE <<>>)
        \o (IF "indexes" \in mc
            THEN <<[Blank EXCEPT !.k = "Meta", !.m = mn, !.prop = "indexes", !.ival = n.idx]>>
            ELSE <<>>)
